@@ -34,7 +34,7 @@ class C05(Prop):
         out = []
         for _ in range(n):
             t = X.gen_tree(rng, rng.choice([2, 3, 4]), root="dict")
-            mode = rng.choice(["convert", "convert", "wrap", "json", "convert", "convert", "wrap", "json", "missing"])
+            mode = rng.choice(["convert", "convert", "wrap", "json", "convert", "convert", "wrap", "json", "missing", "convtup"])
             cur = copy.deepcopy(t)
             ops, metas = [], []
             for _ in range(rng.randint(1, 6)):
@@ -198,6 +198,17 @@ class C05(Prop):
             op = [kind, X.render(t, p, rng), rc] + (["D"] if kind == "pop" else [])
             out.append({"stream": "ops", "tag": "shared-input", "input": {"tree": t, "mode": "convert", "ops": [op],
                                                                          "metas": [{"path": list(p)}], "alias": [list(src), dst]}})
+        # a lookup of the path before the tree is changed underneath with a single-key assignment on the root (no xpath
+        # involved), then pop: the answer is what the tree holds now, not what an earlier lookup saw
+        for _ in range(40 if tier == "quick" else 1000):
+            newcfg = rng.choice([{"mode": "new", "n": 2}, {"other": 1}, {"mode": None}, {}])
+            t = {"cfg": {"mode": "old", "n": 1}, "z": rng.choice([1, [1, 2]])}
+            kind = rng.choice(["pop", "pop", "del"])
+            op2 = [kind, rng.choice(["cfg/mode", "/cfg/mode", "//cfg/mode"]), False] + (["D"] if kind == "pop" else [])
+            meta2 = {"path": ["cfg", "mode"]} if "mode" in newcfg else {"missing": True}
+            out.append({"stream": "ops", "tag": "lookup-then-replace", "input": {
+                "tree": t, "mode": rng.choice(["convert", "json", "wrap"]), "prelook": True,
+                "ops": [["set", "cfg", newcfg], op2], "metas": [{"path": ["cfg"]}, meta2]}})
         self._exh = None
         if tier == "thorough":
             n_trees = n_cases = 0
@@ -231,6 +242,11 @@ class C05(Prop):
             obj = X.build(i["tree"], i["mode"])
         ref = copy.deepcopy(i["tree"])
         fail = None
+        if i.get("prelook"):
+            # every path of the history is looked up first (lookups are pure: C04)
+            for op in i["ops"]:
+                if "new()" not in op[1]:
+                    obj.get(op[1], X.DFLT)
         for op, m in zip(i["ops"], i["metas"]):
             before = X.plain(obj)
             expected_val = None
